@@ -280,11 +280,97 @@ QLinksLoop(st, g) ==
 
 RunQLinks(st, g) == QLinksLoop(st, g)
 
+(***************************************************************************)
+(* get_webentity_child_webentities_iter(weid, ps): dfs_iter with the       *)
+(* pruning flag, a yield point after EVERY node; the pruning decision and  *)
+(* the pointers pushed come from the copy read before the yield.           *)
+(***************************************************************************)
+NewChildrenQuery(weid, ps) ==
+  [kind |-> "qchildren", weid |-> weid, ps |-> ps, pi |-> 0, start |-> 0, stack |-> <<>>,
+   pend |-> [has |-> FALSE], acc |-> {}, phase |-> "run", pages |-> 0, created |-> <<>>,
+   done |-> FALSE, exc |-> ""]
+
+CPush(stack, start, pend) ==
+  stack
+  \o (IF pend.b # start
+      THEN (IF pend.node.r # 0 THEN <<[b |-> pend.node.r, pre |-> pend.pre]>> ELSE <<>>)
+           \o (IF pend.node.l # 0 THEN <<[b |-> pend.node.l, pre |-> pend.pre]>> ELSE <<>>)
+      ELSE <<>>)
+  \o (IF ~pend.node.nc /\ pend.node.ch # 0 THEN <<[b |-> pend.node.ch, pre |-> pend.cur]>> ELSE <<>>)
+
+RECURSIVE QChildrenLoop(_, _)
+QChildrenLoop(st, g) ==
+  IF g.pend.has THEN QChildrenLoop(st, [g EXCEPT !.stack = CPush(@, g.start, g.pend), !.pend = [has |-> FALSE]])
+  ELSE IF g.stack = <<>> THEN
+    IF g.pi >= Len(g.ps) THEN [st |-> st, g |-> [g EXCEPT !.done = TRUE]]
+    ELSE LET p == g.ps[g.pi + 1]
+             n == LruNode(st.trie, p)
+         IN IF n = 0 THEN [st |-> st, g |-> [g EXCEPT !.done = TRUE, !.exc = "TraphException"]]
+            ELSE QChildrenLoop(st, [g EXCEPT !.pi = @ + 1, !.start = n,
+                                             !.stack = <<[b |-> n, pre |-> SubSeq(p, 1, Len(p) - 1)]>>])
+  ELSE LET top  == g.stack[Len(g.stack)]
+           rest == SubSeq(g.stack, 1, Len(g.stack) - 1)
+           node == st.trie[top.b]
+           cur  == Append(top.pre, node.s)
+       IN [st |-> st,
+           g |-> [g EXCEPT !.stack = rest,
+                           !.pend = [has |-> TRUE, node |-> node, b |-> top.b, pre |-> top.pre, cur |-> cur],
+                           !.acc = IF node.we # 0 /\ node.we # g.weid THEN @ \cup {node.we} ELSE @]]
+
+(***************************************************************************)
+(* get_webentity_pagelinks_iter(weid, ps, inbound, internal, outbound):    *)
+(* for every page met, its out list then its in list; each list is read    *)
+(* (with multiplicities) when its first item is needed; a yield point after *)
+(* EVERY item, kept or not.                                                 *)
+(***************************************************************************)
+NewPageLinksQuery(weid, ps, inb, internal, outb) ==
+  [kind |-> "qpagelinks", weid |-> weid, ps |-> ps, inb |-> inb, int |-> internal, out |-> outb,
+   pi |-> 0, start |-> 0, stack |-> <<>>, pend |-> [has |-> FALSE], cur |-> <<>>, side |-> "none",
+   todo |-> <<>>, lru |-> <<>>, acc |-> <<>>, phase |-> "run", pages |-> 0, created |-> <<>>,
+   done |-> FALSE, exc |-> ""]
+
+RECURSIVE QPageLinksLoop(_, _)
+QPageLinksLoop(st, g) ==
+  IF g.cur # <<>> THEN        \* next item of the list being walked: resolve now, keep or not, yield
+    LET it  == g.cur[1]
+        tl  == Windup(st.trie, it[1])
+        tw  == WindupWe(st.trie, it[1])
+        keep == IF g.side = "out" THEN (g.out /\ tw # g.weid) \/ (g.int /\ tw = g.weid) ELSE tw # g.weid
+        row == IF g.side = "out" THEN <<g.lru, tl, it[2]>> ELSE <<tl, g.lru, it[2]>>
+    IN [st |-> st, g |-> [g EXCEPT !.cur = Tail(@), !.acc = IF keep THEN Append(@, row) ELSE @]]
+  ELSE IF g.todo # <<>> THEN  \* the in list of the same page comes after its out list: read it now
+    QPageLinksLoop(st, [g EXCEPT !.cur = Weighted(st.ls, g.todo[1]), !.side = "in", !.todo = <<>>])
+  ELSE IF g.pend.has THEN
+    QPageLinksLoop(st, [g EXCEPT !.stack = QPush(@, g.start, g.pend), !.pend = [has |-> FALSE]])
+  ELSE IF g.stack = <<>> THEN
+    IF g.pi >= Len(g.ps) THEN [st |-> st, g |-> [g EXCEPT !.done = TRUE]]
+    ELSE LET p == g.ps[g.pi + 1]
+             n == LruNode(st.trie, p)
+         IN IF n = 0 THEN [st |-> st, g |-> [g EXCEPT !.done = TRUE, !.exc = "TraphException"]]
+            ELSE QPageLinksLoop(st, [g EXCEPT !.pi = @ + 1, !.start = n,
+                                              !.stack = <<[b |-> n, pre |-> SubSeq(p, 1, Len(p) - 1)]>>])
+  ELSE LET top  == g.stack[Len(g.stack)]
+           rest == SubSeq(g.stack, 1, Len(g.stack) - 1)
+           node == st.trie[top.b]
+           rel  == top.b = g.start \/ node.we = 0
+           cur  == Append(top.pre, node.s)
+           pend == [has |-> TRUE, node |-> node, b |-> top.b, pre |-> top.pre, cur |-> cur, rel |-> rel]
+           doOut == node.o # 0 /\ (g.out \/ g.int)
+           doIn  == node.i # 0 /\ g.inb
+       IN IF rel /\ node.pg /\ (doOut \/ doIn)
+          THEN QPageLinksLoop(st, [g EXCEPT !.stack = rest, !.pend = pend, !.lru = cur,
+                                            !.cur = IF doOut THEN Weighted(st.ls, node.o) ELSE <<>>,
+                                            !.side = IF doOut THEN "out" ELSE "none",
+                                            !.todo = IF doIn THEN <<node.i>> ELSE <<>>])
+          ELSE QPageLinksLoop(st, [g EXCEPT !.stack = QPush(rest, g.start, pend)])
+
 RunGen(st, ram, def, g) ==
   IF g.kind = "crawl" THEN RunCrawl(st, ram, def, g)
   ELSE IF g.kind = "qpages" THEN RunQPages(st, g)
   ELSE IF g.kind = "qnet" THEN RunQNet(st, g)
   ELSE IF g.kind = "qlinks" THEN RunQLinks(st, g)
+  ELSE IF g.kind = "qchildren" THEN QChildrenLoop(st, g)
+  ELSE IF g.kind = "qpagelinks" THEN QPageLinksLoop(st, g)
   ELSE RunRule(st, ram, def, g)
 
 =============================================================================
